@@ -167,6 +167,22 @@ impl From<ClientRoute> for RouteCmpByConnId {
     }
 }
 
+#[cfg(scylla_verif)]
+impl ClientRoutesAddressTranslator {
+    /// Verification hook: every route currently known, as (host id low 64 bits, connection id, port).
+    pub(crate) fn verif_known_routes(&self) -> Vec<(u64, String, Option<u16>)> {
+        let guard = self.client_routes.read().unwrap();
+        guard
+            .iter()
+            .flat_map(|(host, known)| {
+                std::iter::once(&known.sticky_route)
+                    .chain(known.other_routes.iter().map(|r| &r.0))
+                    .map(move |r| (host.as_u128() as u64, r.connection_id.clone(), r.port))
+            })
+            .collect()
+    }
+}
+
 impl ClientRoutesAddressTranslator {
     pub(crate) fn new(
         config: ClientRoutesConfig,
